@@ -75,7 +75,9 @@ class NetMask(Resource):
     def make_netmask(cls, string: str | int, afi: AFI) -> NetMask:
         if afi == AFI.ipv4:
             if isinstance(string, str) and string in cls.codes:
-                klass = cls(cls.codes[string])
+                # not through the interning constructor: the instance is shared by value, and an IPv4 /32
+                # and an IPv6 /32 need different 'maximum'
+                klass = int.__new__(cls, cls.codes[string])
                 klass.maximum = 32
                 return klass
             maximum = 32
@@ -93,6 +95,6 @@ class NetMask(Resource):
         if value < 0 or value > maximum:
             raise ValueError('invalid netmask {}'.format(string))
 
-        klass = cls(value)
+        klass = int.__new__(cls, value)
         klass.maximum = maximum
         return klass
